@@ -175,3 +175,61 @@ UNITS.append(Unit('C05_dot_mm', 'C05', DOT_MM, use=_core_all + [matmul], types=c
                   traits=[(D + '{trait Dot}', DOT_TRAIT_DECL)], preludes=PRE, broadcast=BC, level='L1',
                   notes='16 Matrix.Matrix product methods (plain / transpose-left / transpose-right / both, owned and borrowed operands) '
                         'against the matmul contract: conformability rejected, output shape, every entry'))
+
+# ---------------------------------------------------------------- Dot trait: Matrix . Vector, Vector . Matrix (32 methods), Vector . Vector (16)
+TO_OWNED = ('.to_owned()', '.clone()',
+            'R28: `to_owned()` on a `Vector` / `&Vector` receiver is the blanket `impl<T: Clone> ToOwned for T`, i.e. `clone()` (std; Verus has no spec for ToOwned)')
+DOT_MV = []
+for self_ty in ['Matrix', '&Matrix']:
+    for other_ty in ['Vector', '&Vector']:
+        hdr = 'impl Dot<%s, Vector> for %s' % (other_ty, self_ty)
+        pre = ('wfd(self.nrows, self.ncols, self.data.v@.len()) && self.nrows > 0 && self.ncols > 0 && 0 < other.v@.len() <= i32max()')
+        val = '((k == 0 || k == 1) ==> self.ncols == other.v@.len()) && ((k == 2 || k == 3) ==> self.nrows == other.v@.len())'
+        items_ = ('    open spec fn dot_pre(&self, other: %s, k: int) -> bool { %s }\n'
+                  '    open spec fn dot_valid(&self, other: %s, k: int) -> bool { %s }' % (other_ty, pre, other_ty, val))
+        for name, (k, ta, tb) in DOTK.items():
+            m = 'self.ncols' if ta else 'self.nrows'
+            l = 'self.nrows' if ta else 'self.ncols'
+            tag = 'C05.dot.%s<%s>for%s' % (name, other_ty, self_ty)
+            DOT_MV.append(Fn(D + '{%s}::%s' % (hdr, name), ret='r', level='L1', valid='%s == other.v@.len()' % l, impl_items=items_, rej_clause=False,
+                             rewrites=[TO_OWNED],
+                             ensures=[tag + '.valid:: %s == other.v@.len()' % l,
+                                      tag + '.entry:: is_product(r.v@, self.data.v@, self.ncols as int, %s, other.v@, 1, false, %s as int, %s as int, 1)' % (str(ta).lower(), m, l)],
+                             hints=[('o.t_mut();', 'before', 'let ghost o0 = o; proof { assert(o0.data.v@ == other.v@); }'),
+                                    ('o.t_mut();', 'after',
+                                     'proof { assert(o.nrows == other.v@.len() && o.ncols == 1); '
+                                     'assert forall|j: int| 0 <= j < other.v@.len() implies o.data.v@[j] == other.v@[j] by { assert(at2(o.data.v@, 1, j, 0) == at2(o0.data.v@, o0.ncols as int, 0, j)); } '
+                                     'assert(o.data.v@ =~= other.v@); }')]))
+DOT_VM = []
+for self_ty in ['Vector', '&Vector']:
+    for other_ty in ['Matrix', '&Matrix']:
+        hdr = 'impl Dot<%s, Vector> for %s' % (other_ty, self_ty)
+        pre = ('wfd(other.nrows, other.ncols, other.data.v@.len()) && other.nrows > 0 && other.ncols > 0 && 0 < self.v@.len() <= i32max()')
+        val = '((k == 0 || k == 2) ==> self.v@.len() == other.nrows) && ((k == 1 || k == 3) ==> self.v@.len() == other.ncols)'
+        items_ = ('    open spec fn dot_pre(&self, other: %s, k: int) -> bool { %s }\n'
+                  '    open spec fn dot_valid(&self, other: %s, k: int) -> bool { %s }' % (other_ty, pre, other_ty, val))
+        for name, (k, ta, tb) in DOTK.items():
+            n = 'other.nrows' if tb else 'other.ncols'
+            lb = 'other.ncols' if tb else 'other.nrows'
+            tag = 'C05.dot.%s<%s>for%s' % (name, other_ty, self_ty)
+            DOT_VM.append(Fn(D + '{%s}::%s' % (hdr, name), ret='r', level='L1', valid='self.v@.len() == %s' % lb, impl_items=items_, rej_clause=False,
+                             rewrites=[TO_OWNED],
+                             ensures=[tag + '.valid:: self.v@.len() == %s' % lb,
+                                      tag + '.entry:: is_product(r.v@, self.v@, self.v@.len() as int, false, other.data.v@, other.ncols as int, %s, 1, self.v@.len() as int, %s as int)' % (str(tb).lower(), n)]))
+DOT_VV = []
+for self_ty in ['Vector', '&Vector']:
+    for other_ty in ['Vector', '&Vector']:
+        hdr = 'impl Dot<%s, f64> for %s' % (other_ty, self_ty)
+        items_ = ('    open spec fn dot_pre(&self, other: %s, k: int) -> bool { true }\n'
+                  '    open spec fn dot_valid(&self, other: %s, k: int) -> bool { self.v@.len() == other.v@.len() }' % (other_ty, other_ty))
+        for name, (k, ta, tb) in DOTK.items():
+            tag = 'C05.dot.%s<%s>for%s' % (name, other_ty, self_ty)
+            DOT_VV.append(Fn(D + '{%s}::%s' % (hdr, name), ret='r', level='L1', valid='self.v@.len() == other.v@.len()', impl_items=items_, rej_clause=False,
+                             ensures=[tag + '.valid:: self.v@.len() == other.v@.len()',
+                                      tag + '.def:: rv(r) == dsum(self.v@, other.v@, self.v@.len() as int)']))
+
+from contracts import C04 as c04
+UNITS.append(Unit('C05_dot_vec', 'C05', DOT_MV + DOT_VM + DOT_VV, use=_core_all + [c15.mt_mut, c04.dot] + DOT_MM, types=core.TYPES, type_spec=core.TYPE_SPEC,
+                  spec=SPEC + DOT_WFD + c04.RED_SPEC, traits=[(D + '{trait Dot}', DOT_TRAIT_DECL)], preludes=PRE, broadcast=BC, level='L1',
+                  notes='32 Matrix.Vector / Vector.Matrix product methods (the vector enters as a column / as a row, transposing it is a no-op) against the '
+                        'Matrix.Matrix contracts, and the 16 Vector.Vector methods against the dot contract: conformability rejected, length, every entry'))
